@@ -132,7 +132,7 @@ PARAM_FIELDS = {"width", "depth", "uint_maxval", "max_count", "num_reserved", "b
 TABLE_FIELDS = {"cms", "n_added_records", "registers", "lhh", "lhh_count", "key_lens"}
 
 
-def field_stability(chk, ex, tables=False):
+def field_stability(chk, ex, tables=False, classes=None):
     """class invariant: no public method reassigns a parameter field (so every reachable object
     has the parameter fields its constructor gave it)"""
     from . import _wrappers
@@ -141,6 +141,12 @@ def field_stability(chk, ex, tables=False):
     value = Sym(z3.Int("value"), "int")
     ngram = Sym(z3.Int("ngram"), "int")
     for cls in ("CountMinLinear", "CountMinLog16", "CountMinLog8", "HyperLogLog", "HeavyHitters"):
+        if classes is not None and cls not in classes:
+            continue
+        if ("stability", cls) in chk.done:
+            continue
+        chk.done.add(("stability", cls))
+        tables = True  # the table rows are cheap and wanted everywhere
         a, objs, _ = good_objects(ex, cls, "fs")
         sref, st0 = objs[0]
         b, others, _ = good_objects(ex, cls, "fs", st=st0.fork())
@@ -172,3 +178,44 @@ def field_stability(chk, ex, tables=False):
                 # a table attribute is bound once (constructor / attach): rebinding it would cut a shared
                 # or attached sketch loose from its block - updates go *into* the arrays
                 _wrappers.row(chk, "%s.%s:does-not-rebind-its-tables" % (cls, meth), not badt, sorted(badt))
+
+
+KIND = {"CountMinLinear": "cms", "CountMinLog16": "cms", "CountMinLog8": "cms", "HyperLogLog": "hll", "HeavyHitters": "hh"}
+
+
+def integrity_bundle(chk, classes, found=None, merge_tree=True):
+    """class-level obligations shared by every property whose statement quantifies over histories or
+    configurations of these classes: however a sketch comes into being (factory, constructor,
+    save/load, shared memory, attach_shared_memory) it has the parameters and tables asked for; every
+    merge() reaches its kernel; the library's merge tree and queue handling lose nothing; what
+    query() answers is the kernel's answer for the current tables.  Every part is idempotent per run."""
+    from .. import glue, pyexec
+    from . import C08, C10, C13, C15, C16, C17, C18
+
+    found = found or getattr(chk, "default_found", None)
+    ex = glue.make_exec(chk)
+    cm = [c for c in classes if c.startswith("CountMin")]
+    steps = []
+    if cm:
+        steps.append(("CountMin factory", lambda: C15.factory_rows(chk, ex, cm)))
+        steps.append(("log constructors", lambda: C18.constructor_rows(chk, cm)))
+    steps.append(("save/load", lambda: C10.part(chk, list(classes))))
+    steps.append(("merge()", lambda: C15.merge_glue(chk, list(classes))))
+    steps.append(("attach_shared_memory", lambda: C16.attach_helper_part(chk, ex, found, list(classes))))
+    ex3 = glue.make_exec(chk, {("call", "HeavyHitters.generate_candidate_set"): glue._stub_gcs})
+    for c in classes:
+        steps.append((c + ".load(shared_memory=True)", lambda c=c: C16.loaded_shared(chk, ex3, c, found)))
+    steps.append(("field stability", lambda: field_stability(chk, ex3, True, list(classes))))
+    if "HeavyHitters" in classes:
+        steps.append(("HeavyHitters.query", lambda: C13.query_part(chk, found)))
+    if "HyperLogLog" in classes:
+        steps.append(("HyperLogLog.query freshness", lambda: C17.query_fresh(chk, found)))
+    if merge_tree:
+        steps.append(("parallel_merging", lambda: C08.merge_tree_part(chk, sorted(set(KIND[c] for c in classes)))))
+        steps.append(("queue handling", lambda: C08.partition_part(chk)))
+    for what, f in steps:
+        try:
+            f()
+        except pyexec.Unsupported as e:
+            chk.undecided.append((what, "unsupported construct in glue: %s" % e))
+    chk.assumptions.update(glue.ASSUMED)
